@@ -404,8 +404,14 @@ func sigRunOne(cfg sigRun, bin, target string, w *vt.Writer) {
 	}
 	t1 := time.Now()
 	// scen timeout: pandora must give up by itself (3 s after SIGTERM, 30 s after SIGINT); a process that is still
-	// there a minute later hangs - that is an observation, not a failure of the machinery
+	// there a minute after that hangs - that is an observation, not a failure of the machinery
 	limit := 120 * time.Second
+	if cfg.scen == "timeout" {
+		limit = 63 * time.Second // SIGTERM: 3 s, and a minute on top of it
+		if cfg.sig == "INT" {
+			limit = 90 * time.Second // 30 s
+		}
+	}
 	hung := false
 	select {
 	case waitErr = <-exited:
